@@ -407,6 +407,47 @@ def spec_sac_q_loss(policy, batch, qf1, qf2, qf1_t, qf2_t, log_alpha, gamma, key
     return l1 + l2
 
 
+def _memo_r(f):
+    memo = {}
+
+    def g(model):
+        if "r" not in memo:
+            memo["r"] = f(model)
+        return memo["r"]
+    return g
+
+
+def native_sac_target_replay(autotune):
+    """R1: the real SAC.sac_train (real MLPSACPolicy / SoftQNetworks, ReplayBuffer.sample = identity) on three buffers with identical contents but different flags:
+    all TERMINATED -> reported q_loss = q_loss(target = rewards), for two different temperatures and keys (no bootstrap, no entropy term);
+    all TRUNCATED (done and timeout) -> the same q_loss as all NOT-DONE (bootstraps through truncation); and NOT-DONE differs from the no-bootstrap loss (non-vacuity)."""
+    def replay(model):
+        from contracts import _native as N
+        fx = N.sac_fixture(autotune=autotune, batch_size=8)
+        rb = fx["buffer"]
+        losses = {}
+        with extract.patched((ReplayBuffer, "sample", lambda self, n, *, key: self)):
+            for name, (dn, to) in dict(terminated=(True, False), truncated=(True, True), running=(False, False)).items():
+                b = eqx.tree_at(lambda r: (r.dones, r.timeouts), rb, (jnp.full((8,), dn), jnp.full((8,), to)))
+                for la, ks in ((jnp.log(0.2), 7), (jnp.log(1.3), 8)):
+                    f2 = dict(fx, buffer=b, log_alpha=jnp.asarray(la, f32))
+                    out = N.sac_train(f2, 1, key=jax.random.key(ks))
+                    losses[(name, ks)] = float(out[-1]["q_loss"])
+        no_boot = float(SAC.q_loss((fx["qf1"], fx["qf2"]), rb, rb.rewards))
+        bad = {}
+        for ks in (7, 8):
+            if abs(losses[("terminated", ks)] - no_boot) > 1e-4 * (1 + abs(no_boot)):
+                bad[f"terminated batch, key {ks}"] = dict(reported_q_loss=losses[("terminated", ks)], q_loss_with_target_equal_reward=no_boot)
+            if abs(losses[("truncated", ks)] - losses[("running", ks)]) > 1e-4 * (1 + abs(losses[("running", ks)])):
+                bad[f"truncated vs running batch, key {ks}"] = dict(truncated=losses[("truncated", ks)], running=losses[("running", ks)])
+        if abs(losses[("running", 7)] - no_boot) < 1e-7:
+            bad["non-vacuity"] = "a running batch gives the no-bootstrap loss"
+        if bad:
+            return dict(reproduced=True, route="R1 (real SAC.sac_train with real networks; ReplayBuffer.sample = identity; flags forced per buffer)", inputs=dict(batch_size=8, gamma=0.9, alphas=[0.2, 1.3], keys=[7, 8], autotune=autotune), observed=bad)
+        return dict(reproduced=False, note="terminated transitions do not bootstrap (no entropy term either), truncated ones bootstrap exactly like running ones")
+    return replay
+
+
 def unit_sac(autotune, Bc=3):
     def unit(S):
         S.under_contract(F_SACT, "lerax.algorithm.sac:SAC.q_loss", "lerax.algorithm.sac:SAC.actor_loss", "lerax.algorithm.sac:SAC.alpha_loss")
@@ -422,6 +463,7 @@ def unit_sac(autotune, Bc=3):
         # the target-computation call of the policy: the first action_and_log_prob call, at the successor observations
         pcalls = [c for c in ctx.calls if c.name == "pi.action_and_log_prob"]
         b, b2 = z3.Ints("b b2")
+        rp_t = _memo_r(native_sac_target_replay(autotune))
         S.fact(f"{tag}/policy-sampled-for-targets", len(pcalls) >= 1, function=F_SACT, what="the policy is sampled for the targets")
         if not pcalls:
             return
@@ -473,7 +515,7 @@ def unit_sac(autotune, Bc=3):
                 return jax.vmap(target)(batch_.next_observations, batch_.rewards, batch_.dones, batch_.timeouts, keys_)
             tgt_spec = run(ctxt, spec_targets, dt_["pol"], dt_["batch"], dt_["q1t"], dt_["q2t"], dt_["la"], dt_["gamma"], keys2)
             for lane in range(Bc):
-                S.prove(f"{tag}/td-target[lane {lane}]", ctxt, ir.seq(tgt_real.at((lane,)), tgt_spec.at((lane,))), function=F_SACT, nl_budget_ms=5000,
+                S.prove(f"{tag}/td-target[lane {lane}]", ctxt, ir.seq(tgt_real.at((lane,)), tgt_spec.at((lane,))), function=F_SACT, nl_budget_ms=5000, replay=rp_t,
                         what="y_b = r_b + gamma*(1 - (done_b and not timeout_b))*(min(Qbar_1, Qbar_2)(s'_b, a'_b) - alpha*log pi(a'_b|s'_b)), alpha = exp(log_alpha), "
                              "(a'_b, log pi) freshly sampled by the current policy: bootstraps through truncation, never through termination")
         # gradient frames, read off the vjp calls
